@@ -1,3 +1,4 @@
 prop("C03", files={"root": ["vf_c03_test.go"] + EV}, shared={"root": J + ["vf_ids_test.go"]},
      assumptions=["reference redaction tables / event-ID computation (vf_evgen_test.go) transcribe the specification correctly",
-                  "room-version-1/2 event IDs are random (util.RandomString); no check depends on their value"])
+                  "room-version-1/2 event IDs are random (util.RandomString); no check depends on their value"],
+     rapidfuzz=[('root', 'C03/roundtrip', 45)])
